@@ -384,3 +384,53 @@ def method_wrapped(src):
 
 EXTRA3 = (("with-to-acquire", with_to_acquire), ("acquire-to-with", acquire_to_with), ("filter-to-comprehension", filter_to_comprehension),
           ("range-chained", range_chained), ("independent-swapped", independent_swapped), ("method-wrapped", method_wrapped))
+
+
+# ---- fourth set: edits of things no property speaks about ------------------------------------------------------------
+def messages_reworded(src):
+    """the text of every exception message / log message given as a string literal gets a suffix."""
+    tree = ast.parse(src)
+    for n in ast.walk(tree):
+        call = None
+        if isinstance(n, ast.Raise) and isinstance(n.exc, ast.Call):
+            call = n.exc
+        elif isinstance(n, ast.Expr) and isinstance(n.value, ast.Call) and isinstance(n.value.func, ast.Attribute) and n.value.func.attr in ("_log", "log", "debug", "info", "warning", "error"):
+            call = n.value
+        if call is None:
+            continue
+        for a in call.args:
+            if isinstance(a, ast.Constant) and isinstance(a.value, str) and a.value:
+                a.value = a.value + " (reworded)"
+                break
+            if isinstance(a, ast.Call) and isinstance(a.func, ast.Attribute) and a.func.attr == "format" and isinstance(a.func.value, ast.Constant) and isinstance(a.func.value.value, str):
+                a.func.value.value = a.func.value.value + " (reworded)"
+                break
+    return ast.unparse(tree) + "\n"
+
+
+def docstrings_stripped(src):
+    tree = ast.parse(src)
+    for n in ast.walk(tree):
+        if isinstance(n, (ast.FunctionDef, ast.AsyncFunctionDef, ast.ClassDef)) and _doc_skip(n.body):
+            n.body = n.body[1:] or [ast.Pass()]
+    ast.fix_missing_locations(tree)
+    return ast.unparse(tree) + "\n"
+
+
+class _Chain(ast.NodeTransformer):
+    """`a = b = e` with e a constant or plain name -> `b = e; a = e` (right-most target first, as Python assigns left to
+    right from the same value; with a constant or name the value is the same object either way)."""
+    def visit_Assign(self, node):
+        if len(node.targets) > 1 and isinstance(node.value, (ast.Constant, ast.Name)):
+            import copy
+            return [ast.copy_location(ast.Assign(targets=[t], value=copy.deepcopy(node.value)), node) for t in node.targets]
+        return node
+
+
+def chained_assign_split(src):
+    tree = _Chain().visit(ast.parse(src))
+    ast.fix_missing_locations(tree)
+    return ast.unparse(tree) + "\n"
+
+
+EXTRA4 = (("messages-reworded", messages_reworded), ("docstrings-stripped", docstrings_stripped), ("chained-assign-split", chained_assign_split))
